@@ -32,6 +32,8 @@ class TaskScenario(ScenarioData):
         self._lastBookedSlot: Optional[int] = None
         # Slot that contains the dependency bound; the intra-slot start offset applies there only
         self._offsetSlotIdx: Optional[int] = None
+        # Exact dependency bound of a forward-scheduled task (may lie inside a slot)
+        self._boundDate: Optional[datetime] = None
 
         # Ensure required attributes exist
         required_attrs = [
@@ -96,6 +98,7 @@ class TaskScenario(ScenarioData):
         self.scheduled = False
         self._selectedResources = None  # Reset alternative resource selection
         self._offsetSlotIdx = None
+        self._boundDate = None
 
         # Track exact start time within a slot (for mid-slot dependency starts)
         # This is the number of seconds into the slot where we should start booking
@@ -522,6 +525,7 @@ class TaskScenario(ScenarioData):
                     # Convert earliest_start to slot index
                     # If earliest_start is mid-slot, track the offset so we don't
                     # book time that overlaps with the predecessor
+                    self._boundDate = earliest_start
                     slot_idx = self.project.dateToIdx(earliest_start)
                     slot_start = self.project.idxToDate(slot_idx)
                     if earliest_start > slot_start:
@@ -711,9 +715,10 @@ class TaskScenario(ScenarioData):
                 if start_date and not self.property.inherited("start", self.scenarioIdx):
                     self.property[("end", self.scenarioIdx)] = start_date
                 else:
-                    # No start date - use current slot (set by dependency calculation)
+                    # No start date - the milestone sits exactly at its dependency bound,
+                    # which may lie inside a slot
                     slot_idx = self.currentSlotIdx if self.currentSlotIdx is not None else 0
-                    date = self.project.idxToDate(slot_idx)
+                    date = self._boundDate if self._boundDate is not None else self.project.idxToDate(slot_idx)
                     self.property[("start", self.scenarioIdx)] = date
                     self.property[("end", self.scenarioIdx)] = date
             else:
